@@ -90,7 +90,7 @@ def equiv_check(kinds, what):
                 K.emit_tables(prop, "tab-la", dict(CFGS="U_C04", SYMS="Syms_C04", HI=600 if q else 6000))]
         n = 150 if q else 3000
         sources = ["tables:" + t for t in tabs] + [f"random:c01:{n}:{seed}", f"random:c04:{n}:{seed}",
-                                                     f"random:c06:{n}:{seed}", "classpairs", "corpus"]
+                                                     f"random:c06:{n}:{seed}", "classpairs", "sharedtt", "corpus"]
         out, info = K.harness_dump(prop, "dump", sources)
         cases_path = os.path.join(out, "cases.json")
         with open(cases_path) as f:
@@ -163,9 +163,9 @@ def equiv_check(kinds, what):
     return chk
 
 
-def iter_cfg(a, b, adv="TRUE", with_adv="FALSE"):
+def iter_cfg(a, b, adv="TRUE", with_adv="FALSE", peek="TRUE"):
     return (f"INIT IInit\nNEXT INext\nINVARIANT IInv\nCONSTANTS\n  FixLastChar = {a}\n  FixExhaust = {b}\n  FixAdvance = {adv}\n"
-            f"  WithAdvance = {with_adv}\nCHECK_DEADLOCK FALSE\n")
+            f"  WithAdvance = {with_adv}\n  FixPeekSkip = {peek}\nCHECK_DEADLOCK FALSE\n")
 
 
 def ff_cfg(a):
@@ -201,6 +201,10 @@ MODEL_LEGS = {
     "C10": lambda q: [
         ("M-IterImpl-advance", "IterImpl", iter_cfg("TRUE", "TRUE", "TRUE", "TRUE"), dict(CFGS="U_C10", SYMS="Syms_C06", MAXLEN=3 if q else 4, HI=6), False),
         ("M-IterImpl-advance-relative", "IterImpl", iter_cfg("TRUE", "TRUE", "FALSE", "TRUE"), dict(CFGS="U_C10", SYMS="Syms_C06", MAXLEN=3, HI=6), True),
+    ],
+    "C11": lambda q: [
+        ("M-IterImpl-peek", "IterImpl", iter_cfg("TRUE", "TRUE", "TRUE", "TRUE"), dict(CFGS="U_C10", SYMS="Syms_C06", MAXLEN=3 if q else 4), False),
+        ("M-IterImpl-peek-stops-at-unmatched", "IterImpl", iter_cfg("TRUE", "TRUE", "TRUE", "TRUE", "FALSE"), dict(CFGS="U_C10", SYMS="Syms_C06", MAXLEN=3), True),
     ],
     "C05": lambda q: [
         ("M-FindFrom", "FindFrom", ff_cfg("TRUE"), dict(CFGS="U_C05", SYMS="Syms_C04", MAXLEN=4, HI=2500 if q else "Len(Cfgs)"), False),
@@ -300,7 +304,7 @@ def check_C18(K, prop, tier, seed, t0):
     scratch = os.path.join(K.WORK, f"{prop}-{os.getpid()}", "dotscratch")
     p = subprocess.run([K.HARNESS, "dotcheck", out, scratch] + sources, env=K.base_env(), stdout=subprocess.PIPE, stderr=subprocess.PIPE, text=True)
     if p.returncode != 0:
-        K.log(p.stderr[-2000:]); raise K.ToolError("dotcheck failed")
+        K.harness_failed("dotcheck", p.returncode, p.stderr)
     info = json.loads(p.stdout.strip().splitlines()[-1])
     cases_path = os.path.join(out, "dotcases.json")
     d = K.leg_dir(prop, "picture")
@@ -364,7 +368,7 @@ def check_C16(K, prop, tier, seed, t0):
     tlc("emit")
     p = subprocess.run([K.HARNESS, "serde", "run", emitted, back, "/repo/README.md"], env=K.base_env(), stdout=subprocess.PIPE, stderr=subprocess.PIPE, text=True)
     if p.returncode != 0:
-        K.log(p.stderr[-2000:]); raise K.ToolError("harness serde failed")
+        K.harness_failed("serde", p.returncode, p.stderr)
     lines, gen, dist = tlc("check")
     bad = [int(l.split(",")[1].strip(" >")) for l in lines if l.startswith('<<"SERDE-DIFF"')]
     missing = [l for l in lines if l.startswith('<<"SERDE-MISSING"')]
@@ -422,7 +426,7 @@ def check_C08(K, prop, tier, seed, t0):
     p = subprocess.run([K.HARNESS, "classes", shapes, back, facts, "3" if q else "6", str(seed), "16"], env=K.base_env(),
                        stdout=subprocess.PIPE, stderr=subprocess.PIPE, text=True)
     if p.returncode != 0:
-        K.log(p.stderr[-2000:]); raise K.ToolError("harness classes failed")
+        K.harness_failed("classes", p.returncode, p.stderr)
     info = json.loads(p.stdout.strip().splitlines()[-1])
     lines, gen, dist = tlc("check")
     bad = [int(l.split(",")[1].strip(" >")) for l in lines if l.startswith('<<"CLASS-DIFF"')]
@@ -452,10 +456,15 @@ def check_C08(K, prop, tier, seed, t0):
                            difference="a base fact of C08 fails (literal, dot, ASCII restriction of \\d \\s \\w, complements, range bounds)"), f, ensure_ascii=False, indent=1)
         files.append(path)
     unknown = K.report_violations(prop, files, len(files))
-    cov = dict(evaluations=info["measured"] * 1112064, distinct_nontrivial=info["distinct_classes"],
+    with open(facts) as f:
+        fx = json.load(f)
+    cov = dict(literal_facts=len(fx["literals"]), literal_spellings_not_built=fx.get("literal_spellings_not_built", []),
+               evaluations=(info["measured"] + len(fx["literals"])) * 1112064, distinct_nontrivial=info["distinct_classes"],
                rule="evaluations = class instantiations x 1,112,064 scalars (every scalar is classified, exhaustively, for every instantiation); "
                     "distinct_nontrivial = distinct concrete class texts measured; shapes: all expressions of depth <= 1 over 5 base symbols, "
-                    "8 hand-picked deeper ones and a stride through depth 2; 3 (quick) / 6 (thorough) random instantiations each from a table of 51 items",
+                    "8 hand-picked deeper ones and a stride through depth 2; 3 (quick) / 6 (thorough) random instantiations each from a table of 51 items; "
+                    "literal_facts: every spelling of a literal (verbatim, escaped, \\xHH, \\x{H}, \\uHHHH, \\u{H}, \\UHHHHHHHH) of 34 characters incl. all "
+                    "metacharacters, at top level and as a one-element class, each measured over all scalars",
                samples=[{"class": b["class"], "atoms": len(b["atoms"])} for b in backs[:3] + backs[-3:]],
                exhaustive=True, shapes=info["shapes"], states=dist, transitions=gen)
     K.write_evidence(prop, tier, seed, "exploration", cov,
@@ -513,7 +522,7 @@ def check_C14(K, prop, tier, seed, t0):
     rec = os.path.join(vroot, "threads")
     p = subprocess.run([K.HARNESS, "threads", str(n), str(seed), rec, "16" if not q else "8"], env=K.base_env(), stdout=subprocess.PIPE, stderr=subprocess.PIPE, text=True, timeout=3000)
     if p.returncode != 0:
-        K.log(p.stderr[-2000:]); raise K.ToolError("harness threads failed")
+        K.harness_failed("threads", p.returncode, p.stderr)
     info = json.loads(p.stdout.strip().splitlines()[-1])
     with open(os.path.join(rec, "threads.json")) as f:
         tj = json.load(f)
@@ -578,10 +587,12 @@ def check_C17(K, prop, tier, seed, t0):
     q = tier == "quick"
     mreps = [K.run_model_leg(prop, nm, mod, cfg, params, expect_violation=neg, workers=4)
              for (nm, mod, cfg, params, neg) in MODEL_LEGS["C17"](q)]
+    # the closed form RegexSem uses for a{n} over a leaf is the iteration (evaluated on all small cases)
+    mreps.append(K.run_model_leg(prop, "L-RepLeaf", "Lemma_RepLeaf", "INIT LInit\nNEXT LNext\nCHECK_DEADLOCK FALSE\n", {}, workers=1))
     rec = os.path.join(K.WORK, f"{prop}-{os.getpid()}", "large")
     p = subprocess.run([K.HARNESS, "large", rec, "keywords" if q else "both"], env=K.base_env(), stdout=subprocess.PIPE, stderr=subprocess.PIPE, text=True, timeout=3 * 3600)
     if p.returncode != 0:
-        K.log(p.stderr[-2000:]); raise K.ToolError("harness large failed")
+        K.harness_failed("large", p.returncode, p.stderr)
     info = json.loads(p.stdout.strip().splitlines()[-1])
     K.log(f"[large] recorded {info['traces']} full-scale configurations, {info['events']} events, build seconds {info['build_seconds']}")
     stats, viols, _ = K.validate_recorded(prop, "large-traces", rec, shards=2)
@@ -591,7 +602,8 @@ def check_C17(K, prop, tier, seed, t0):
     cov = dict(evaluations=stats["events"], distinct_nontrivial=max(2, sum(1 for m in meta for _ in m["inputs"])),
                rule="full-scale configurations whose unminimised automaton and minimiser partition cross 2^16: (a) 65 700 one-character patterns with "
                     "their own token types, scanned on the characters around index 0, around 2^16, at the end and on a stride; (b, thorough only) "
-                    "a{66000}b on a^66000 b, one less, 2^16 less, and the lengths around 465 that a wrapped group id accepts. Each run is recorded "
+                    "a{66000}b on a^66000 b, one more, one less (scanned from 5 characters before its end), a^132000 b from offset 65 998, and the lengths 463..465 "
+                    "that a wrapped group id accepts. Each run is recorded "
                     "and validated by TLC against Tokenizer (Trace_Api); a build error is an admissible outcome; distinct_nontrivial = inputs scanned",
                samples=[{k: m[k] for k in ("what", "inputs", "build_seconds")} for m in meta],
                traces_validated_against_impl=stats["accepted"] + stats["rejected"], states=max(1, stats["states"]), transitions=max(1, stats["states"]),
@@ -638,7 +650,7 @@ def replay(K, prop, path):
         rec = os.path.join(K.WORK, f"{prop}-{os.getpid()}", "retrace")
         p = subprocess.run([K.HARNESS, "retrace", path, rec], text=True, stdout=subprocess.PIPE, stderr=subprocess.PIPE)
         if p.returncode != 0:
-            K.log(p.stderr[-2000:]); raise K.ToolError("retrace failed")
+            K.harness_failed("retrace", p.returncode, p.stderr)
         stats, viols, _ = K.validate_recorded(prop, "retrace-v", rec, shards=1)
         if viols:
             with open(viols[0]) as f:
